@@ -184,6 +184,36 @@ def by_id(r, F):
                       "%s removes an in-flight entry whose id differs from the caller's: a stale task steals (and answers) the waiters of a newer fetch: %s" % (name, tab), ln=c.ln)
 
 
+def fresh_ids(r, F):
+    """`by id` only means something if ids are fresh: every new in-flight entry gets the current counter value and the counter then moves on by a non-zero
+    constant, on the same path; the id given to the leader is the one stored in the table"""
+    from sa import affine
+    fn = F.method(INF, "enqueue")
+    ups = tables.field_updates(fn, "next_id", INF)
+    vi = fn.calls_to(r"VacantEntry::<'a, T, A>::insert$")
+    if len(vi) != 1:
+        raise AnchorMissing("InflightManager::enqueue: VacantEntry::insert not found exactly once")
+    ok = len(ups) == 1 and ups[0]["kind"] == "add"
+    if ok:
+        form = affine.affine(fn, ups[0]["stmt"].rv.ops[0], depth=1)
+        var = [k for k in form if k != "1"]
+        ok = len(var) == 1 and "next_id" in var[0] and form[var[0]] == 1 and form.get("1", 0) != 0 and (fn.dominates(ups[0]["block"], vi[0].idx) or fn.must_pass(vi[0].idx, [ups[0]["block"]]))
+    r.require(ok, fn, "a new in-flight entry advances the id counter", "next_id += c (c != 0) on the path that inserts the entry",
+              "InflightManager::enqueue does not advance next_id by a non-zero step for every new entry: two fetches of a key share an id, so a superseded fetch task can take over "
+              "(and answer) the waiters of the newer one", ln=fn.lo)
+    ids = []
+    for b in fn.blocks:
+        if b.cleanup:
+            continue
+        for st in b.stmts:
+            if st.k == "assign" and st.rv.k == "agg" and ((st.rv.j.get("adt") or "").endswith("inflight::Inflight") or st.rv.j.get("variant") == "Lead"):
+                fl = dict(st.rv.agg_fields())
+                if "id" in fl:
+                    ids.append(backslice(fn, fl["id"], "prov").has_field("next_id", INF))
+    r.require(len(ids) == 2 and all(ids), fn, "the stored id and the leader's id are the counter's value", "Inflight { id } and Enqueue::Lead { id } both read next_id",
+              "the id kept in the in-flight table and the id handed to the leading fetch are not both the counter's value", ln=fn.lo)
+
+
 def error_caches_nothing(r, F):
     A = locks.analysis(F)
     bad_rx = re.compile(r"RawCache::<E, S, I>::(insert\w*)$|RawCacheShard::<E, S, I>::emplace$")
@@ -290,6 +320,7 @@ def run(chk, F):
     chk.run_rule("C06.waiters-answered", "a vector of waiters taken from the in-flight table always ends in a send to each element", 6, waiters_answered, F)
     chk.run_rule("C06.lead-or-wait", "vacant: fresh id + registered sender + Lead; occupied: push waiter + Wait; only the leader spawns the fetch", 4, lead_or_wait, F)
     chk.run_rule("C06.by-id", "take / fetch_or_take remove an entry by leader id only on equality", 2, by_id, F)
+    chk.run_rule("C06.fresh-ids", "every new in-flight entry gets a fresh id (counter advanced by a non-zero step), shared by the table entry and the leader", 2, fresh_ids, F)
     chk.run_rule("C06.error-caches-nothing", "error / cancel / notify paths reach no insert", 3, error_caches_nothing, F)
     chk.run_rule("C06.single-fetch", "the origin fetch builder is invoked only in try_set_required and not after a disk hit", 2, single_fetch, F)
     chk.run_rule("C06.superseded-fetch-abandons", "a fetch task whose in-flight entry was taken over (closed) neither polls its fetch nor inserts: both fetch arms test the flag first", 2, C11.fetch_checks, F)
